@@ -1,0 +1,48 @@
+//go:build verif
+
+package badger
+
+import (
+	"bytes"
+
+	"github.com/dgraph-io/badger/v4/skl"
+	"github.com/dgraph-io/badger/v4/y"
+)
+
+// Verification export for the re-open-after-crash check (C11): the memtable WAL replay of Open,
+// run on an image of a .mem file. Add-only; compiled only with `-tags verif`.
+
+// VerifWalReplay is what replaying one memtable WAL produced.
+type VerifWalReplay struct {
+	Order      []VerifEntry // the entries in the order logFile.iterate handed them to the replay function
+	MaxVersion uint64       // memTable.maxVersion after the replay
+	Skiplist   []VerifEntry // the skiplist after the replay, in skiplist order
+	ValidEnd   uint32       // the offset iterate returned (UpdateSkipList truncates the file there)
+}
+
+// VerifReplayMemWAL runs what openMemTable / memTable.UpdateSkipList run on a memtable WAL at
+// Open: logFile.iterate(true, 0, mt.replayFunction(opt)) on a fresh memTable, over `data` (the
+// image of an unencrypted NNNNN.mem file). Nothing is written or truncated; db supplies the
+// options and resolves value pointers of the entries it reports.
+func (db *DB) VerifReplayMemWAL(data []byte, fid uint32) (res VerifWalReplay, err error) {
+	// the arena openMemTable allocates, plus room for a WAL that outgrew MemTableSize
+	sl := skl.NewSkiplist(arenaSize(db.opt) + 2*int64(len(data)))
+	defer sl.DecrRef()
+	mt := &memTable{sl: sl, opt: db.opt, buf: &bytes.Buffer{}}
+	mt.wal = verifLogFile(data, fid, nil, nil)
+	replay := mt.replayFunction(db.opt)
+	res.ValidEnd, err = mt.wal.iterate(true, 0, func(e Entry, vp valuePointer) error {
+		res.Order = append(res.Order, db.verifEntry(e.Key, y.ValueStruct{Value: e.Value, Meta: e.meta, UserMeta: e.UserMeta, ExpiresAt: e.ExpiresAt}))
+		return replay(e, vp)
+	})
+	if err != nil {
+		return res, err
+	}
+	res.MaxVersion = mt.maxVersion
+	it := sl.NewUniIterator(false)
+	for it.Rewind(); it.Valid(); it.Next() {
+		res.Skiplist = append(res.Skiplist, db.verifEntry(it.Key(), it.Value()))
+	}
+	it.Close()
+	return res, nil
+}
